@@ -96,14 +96,19 @@ DecideAuthorize(a) ==
     ELSE login
 
 NewAT(client, sub, scopes, aud) ==
-  [name |-> N("a", cnt.a + 1), kind |-> Reg[client].at, client |-> client, sub |-> sub,
-   scopes |-> SetToSeq(scopes), aud |-> SetToSeq(aud)]
+  [NoTok EXCEPT !.name = N("a", cnt.a + 1), !.kind = Reg[client].at, !.client = client, !.sub = sub,
+                !.scopes = SetToSeq(scopes), !.aud = SetToSeq(aud),
+                !.lib = IF Reg[client].at = "jwt" THEN "ok" ELSE "none", !.iss = IF Reg[client].at = "jwt" THEN IssuerName ELSE "none",
+                !.jsub = IF Reg[client].at = "jwt" THEN sub ELSE "none", !.jclient = IF Reg[client].at = "jwt" THEN client ELSE "none",
+                !.sealed = IF Reg[client].at = "jwt" THEN "none" ELSE "ok"]
 NewRT(client, sub, scopes, aud, auth, root) ==
   [name |-> N("f", cnt.f + 1), client |-> client, sub |-> sub, scopes |-> SetToSeq(scopes),
    aud |-> SetToSeq(aud), auth |-> auth, root |-> IF root = "new" THEN N("f", cnt.f + 1) ELSE root]
-NewIDT(client, sub, nonce) ==
-  [NoIdt EXCEPT !.name = N("i", cnt.i + 1), !.sub = sub, !.aud = <<client>>, !.azp = client, !.nonce = nonce,
-                !.iss = "issuer", !.sig = "ok"]
+NewIDTA(client, sub, nonce, auth, amr) ==
+  [NoIdt EXCEPT !.auth = auth, !.amr = amr, !.name = N("i", cnt.i + 1), !.sub = sub, !.aud = <<client>>, !.azp = client, !.nonce = nonce,
+                !.iss = IssuerName, !.sig = "ok", !.lib = "ok", !.life = IDTLifetime]
+NewIDT(client, sub, nonce) == NewIDTA(client, sub, nonce, "none", <<>>)
+NewIDTReq(r) == NewIDTA(r.client, r.sub, r.nonce, r.auth, <<"pwd">>)
 
 Usable(r) == Has(reqs, r) /\ ~reqs[r].used
 
@@ -118,7 +123,7 @@ DecideCallback(a) ==
          ELSE [NoOut EXCEPT !.class = "tokens", !.status = IF r.rmode = "form_post" THEN 200 ELSE 302, !.target = r.uri,
                             !.channel = Channel(r.rmode, r.rtype, TRUE), !.state = r.state,
                             !.at = IF r.rtype = "id_token token" THEN NewAT(r.client, r.sub, r.scopes, {r.client}) ELSE NoTok,
-                            !.idt = NewIDT(r.client, r.sub, r.nonce)]
+                            !.idt = NewIDTReq(r)]
 
 -----------------------------------------------------------------------------
 (* token endpoint: authorization_code                                        *)
@@ -127,8 +132,8 @@ CodeTokens(r, caller) ==
   LET wantRT == "offline_access" \in r.scopes /\ "refresh" \in Reg[caller].grants IN
   [NoOut EXCEPT !.class = "tokens", !.status = 200,
                 !.at = NewAT(r.client, r.sub, r.scopes, {r.client}),
-                !.rt = IF wantRT THEN NewRT(r.client, r.sub, r.scopes, {r.client}, "t", "new") ELSE NoRt,
-                !.idt = NewIDT(r.client, r.sub, r.nonce),
+                !.rt = IF wantRT THEN NewRT(r.client, r.sub, r.scopes, {r.client}, r.auth, "new") ELSE NoRt,
+                !.idt = NewIDTReq(r),
                 !.scope = SetToSeq(r.scopes)]
 
 CodeValid(code) == Has(codes, code) /\ Usable(codes[code])
@@ -169,7 +174,7 @@ RefreshTokens(r, a) ==
   [NoOut EXCEPT !.class = "tokens", !.status = 200,
                 !.at = NewAT(r.client, r.sub, sc, r.aud),
                 !.rt = NewRT(r.client, r.sub, sc, r.aud, r.auth, r.root),
-                !.idt = NewIDT(r.client, r.sub, ""),
+                !.idt = NewIDTA(r.client, r.sub, "", r.auth, <<"pwd">>),
                 !.scope = SetToSeq(sc), !.rotated = a.rt,
                 !.journal = <<"CreateAccessAndRefreshTokens">>]
 
@@ -319,8 +324,8 @@ DecideJWTBearer(a) ==
   IF a.iss \in Clients /\ Reg[a.iss].auth = "pkjwt" /\ a.key = "own"
   THEN LET sc == Range(a.scopes) \cap {"openid", "api"} IN
        [NoOut EXCEPT !.class = "tokens", !.status = 200,
-                     !.at = [name |-> N("a", cnt.a + 1), kind |-> "opaque", client |-> a.iss, sub |-> a.iss,
-                             scopes |-> SetToSeq(sc), aud |-> <<IssuerURL>>],
+                     !.at = [NoTok EXCEPT !.name = N("a", cnt.a + 1), !.kind = "opaque", !.client = a.iss, !.sub = a.iss,
+                                          !.scopes = SetToSeq(sc), !.aud = <<IssuerURL>>, !.sealed = "ok"],
                      !.scope = SetToSeq(sc)]
   ELSE IF cfg.router = "P" THEN TokErr("server_error") ELSE Err(400, "invalid_request")
 
@@ -376,7 +381,7 @@ Decide(op, a) ==
     [] op = "ClientCreds"  -> DecideClientCreds(a)
     [] op = "JWTBearer"    -> DecideJWTBearer(a)
     [] op = "TokenExchange" -> DecideTokenExchange(a)
-    [] op = "Login"        -> [NoOut EXCEPT !.class = IF Usable(a.req) THEN "ok" ELSE "noop"]
+    [] op = "Login"        -> [NoOut EXCEPT !.class = IF Usable(a.req) THEN "ok" ELSE "noop", !.auth = "t"]
     [] op \in {"Approve", "Deny", "ExpireDevice"} -> [NoOut EXCEPT !.class = IF Has(devs, a.dc) THEN "ok" ELSE "noop"]
     [] OTHER               -> [NoOut EXCEPT !.class = "ok"]
 
@@ -481,7 +486,13 @@ Bump(o) ==
                      !.d = IF o.dc # "none" THEN @ + 1 ELSE @,
                      !.n = @ + 1]
 
-Event(op, a) == [op |-> op, args |-> a, out |-> Decide(op, a)]
+\* CreateIDToken: at_hash whenever an access token is created alongside, c_hash when a code is redeemed
+Bind(op, o) ==
+  IF o.class = "tokens" /\ o.idt.name # "none" /\ o.at.name # "none"
+  THEN [o EXCEPT !.idt.athash = "ok", !.idt.chash = IF op = "CodeExchange" THEN "ok" ELSE "absent"]
+  ELSE o
+
+Event(op, a) == [op |-> op, args |-> a, out |-> Bind(op, Decide(op, a))]
 
 Do(e) ==
   /\ Apply(e)
@@ -520,7 +531,7 @@ SeedIdts == ("i1" :> [client |-> "cw", sub |-> "u1", dead |-> FALSE]) @@ ("i2" :
 Init ==
   /\ IF Seeded
      THEN /\ reqs = ("r1" :> [client |-> "cw", uri |-> "ucw", rtype |-> "code", rmode |-> "", scopes |-> {"openid", "offline_access"},
-                              state |-> "st1", nonce |-> "n1", chall |-> "none", done |-> TRUE, sub |-> "u1", used |-> FALSE])
+                              state |-> "st1", nonce |-> "n1", chall |-> "none", done |-> TRUE, sub |-> "u1", used |-> FALSE, auth |-> "t"])
           /\ codes = ("k1" :> "r1") /\ redeemed = {} /\ viol = {}
           /\ devs = ("d1" :> [client |-> "cx", scopes |-> {"openid"}, uc |-> "uc-d1", status |-> "done", sub |-> "u1", expired |-> FALSE])
                   @@ ("d2" :> [client |-> "cp", scopes |-> {"openid"}, uc |-> "uc-d2", status |-> "pending", sub |-> "none", expired |-> FALSE])
